@@ -953,15 +953,22 @@ func (w *World) ViewTool(f *memfile.File) {
 	if err != nil {
 		ev["rc"] = 1
 	}
+	// one name per output line, compared exactly ("" is an ordinary name and
+	// shows as an empty line; a trailing newline makes one empty field too)
+	lines := map[string]int{}
+	for _, ln := range bytes.Split(out, []byte("\n")) {
+		lines[string(ln)]++
+	}
+	lines[""]-- // the field after the last newline
 	ids := []int{}
 	for _, n := range w.U.Names {
-		if bytes.Contains(out, []byte(n+"\n")) {
+		if lines[n] > 0 {
 			ids = append(ids, w.U.NameID(n))
 		}
 	}
 	ev["names"] = ids
 	for _, n := range w.U.Names {
-		if bytes.Contains(out, []byte(n+"\n")) && !bytes.Contains([]byte(n), []byte{0}) { // argv cannot carry NUL
+		if n != "" && lines[n] > 0 && !bytes.Contains([]byte(n), []byte{0}) { // argv cannot carry NUL
 			if e2 := exec.Command(w.viewBin, w.scratch, "items", n).Run(); e2 != nil {
 				ev["rc"] = 2
 			}
